@@ -492,6 +492,12 @@ def run_rules(ctx, res):
                 res.violate(EXT, key, t.where, "conversion arm `%s` does not hand the payload of a variant to the same-named variant unchanged" % t.text.strip()[:100])
     res.floor("per-variant conversion arm templates", n_conv, 3)
 
+    # ---- which fields are `_`: decided by what was written, at every stage before the emitter (MIR)
+    from .. import declcopy
+    SKIP = "R-C02-skip"
+    res.rule(SKIP, "a field is absent from the tree exactly when it was written `_`: the CST->AST stage rebuilds every value from the same-named field / variant of its source unconditionally; the usedness predicates look at the variant only (`Ident`/`Used` -> used, `_`/`Skipped` -> not); validation hands on each declaration as a plain, never mutated copy")
+    declcopy.run(mir, res, SKIP)
+
 
 def check(ctx):
     res = Result("C02", ctx["tier"], "other", ctx["seed"])
